@@ -10,6 +10,7 @@ mkdir -p $out; cp $src/* $out/ 2>/dev/null
 cmd=$(python3 -c "import json,re;print(re.sub(r'\s+\(env:.*$','',json.load(open('$src/meta.json'))['demo_cmd']))")
 git -C $wt checkout -q -- . ; git -C $wt clean -fdq -e SEED >/dev/null
 ddir=$(python3 -c "import json,re;m=re.match(r'[\\w./-]+',json.load(open('$src/meta.json'))['demo_dir'].strip());print(m.group(0).rstrip('/') if m else '.')")
+case "$ddir" in */*) ;; *) [ -d "$wt/$ddir" ] || ddir=. ;; esac
 run_demo() {
   if ! echo "$cmd" | grep -q 'cp ' && [ "${ddir#SEED}" = "$ddir" ]; then mkdir -p $wt/$ddir; for f in $src/*_test.go; do cp $f $wt/$ddir/zz_seed_$(basename $f); done; fi
   ( cd $wt && GO=$GO timeout 1500 bash -c "$cmd" ) > $out/demo_$1.log 2>&1; echo $?; }
